@@ -28,7 +28,8 @@ ZPfxs == {Pfx(n, ZeroHost) : n \in Keys}
 
 MutEvents(acts, vals) ==
     UNION {CASE a = "Insert" -> {[a |-> a, p |-> p, v |-> v] : p \in Pfxs, v \in vals}
-             [] a \in {"Remove", "RemoveKeepTree", "RemoveChildren"} -> {[a |-> a, p |-> p] : p \in ZPfxs}
+             [] a \in {"Remove", "RemoveKeepTree", "RemoveChildren", "ViewRemove"} -> {[a |-> a, p |-> p] : p \in ZPfxs}
+             [] a = "ViewSet" -> {[a |-> a, p |-> p, v |-> v] : p \in ZPfxs, v \in vals}
            : a \in acts}
 PairEvs == UNION {IF a = "Eq" THEN {[a |-> a]} ELSE {[a |-> a, qa |-> qa, qb |-> qb] : qa \in ZPfxs, qb \in ZPfxs}
                   : a \in PairActs}
@@ -51,9 +52,11 @@ Obs == \E e \in PairEvs :
            /\ UNCHANGED <<mA, mB, absA, absB, histA, histB>>
 Next == StepA \/ StepB \/ Obs
 
-View == <<Tree(mA), Tree(mB)>>
+View == <<Tree(mA), Tree(mB), mA.c, mB.c>>
 Bound == /\ Cardinality(absA) <= MaxCountA /\ Cardinality(absB) <= MaxCountB
          /\ Cardinality(Reach(mA)) <= MaxNodesA /\ Cardinality(Reach(mB)) <= MaxNodesB
+         \* the counter may lag / lead only through finding F4 (view set / remove); one step of it is explored
+         /\ Drift(mA) \in 0..1 /\ Drift(mB) \in 0..1
 
 InvRefines == Entries(mA) = absA /\ Entries(mB) = absB
 InvWF == WF(mA) /\ WF(mB)
